@@ -129,6 +129,32 @@ type instRT struct {
 	observes int32
 }
 
+// appCtx is the context an application passes to Start: it ends when the application says so, either as a cancellation or
+// as a deadline that has passed (the two differ only in what Err reports).
+type appCtx struct {
+	context.Context
+	done chan struct{}
+	mu   sync.Mutex
+	err  error
+}
+
+func newAppCtx() *appCtx { return &appCtx{Context: context.Background(), done: make(chan struct{})} }
+func (c *appCtx) Done() <-chan struct{} { return c.done }
+func (c *appCtx) Err() error {
+	c.mu.Lock()
+	defer c.mu.Unlock()
+	return c.err
+}
+func (c *appCtx) Deadline() (time.Time, bool) { return time.Time{}, false }
+func (c *appCtx) end(err error) {
+	c.mu.Lock()
+	if c.err == nil {
+		c.err = err
+		close(c.done)
+	}
+	c.mu.Unlock()
+}
+
 type recMetrics struct{ rt *instRT }
 
 func stateNum(s string) int {
@@ -456,12 +482,16 @@ func runScenario(t *testing.T, sc *Scenario) (res *ScenarioResult) {
 		wg.Wait()
 		// keep the root goroutine alive while in-flight operations return and background goroutines wind down
 		// (virtual time stops once the root goroutine has exited)
-		for k := 0; k < 300; k++ {
+		// (30 virtual seconds in all; the waits double - counting goroutines means dumping every stack)
+		for k, w := 0, 100*time.Millisecond; k < 12; k++ {
 			synctest.Wait()
 			if libraryGoroutines() == 0 {
 				break
 			}
-			time.Sleep(100 * time.Millisecond)
+			time.Sleep(w)
+			if w < 8*time.Second {
+				w *= 2
+			}
 		}
 		res.Gor = libraryGoroutines()
 		tr.logf("gor %d", res.Gor)
@@ -587,8 +617,14 @@ func execStep(tr *Trace, store *RefStore, rts map[int]*instRT, st Step, apiSeq *
 			return
 		}
 		api("start", func() string {
-			ctx, cancel := context.WithCancel(context.Background())
-			err := rt.el.Start(ctx)
+			// (how this run's context will end, if the scenario ends it: every third start gets a deadline flavour)
+			ac := newAppCtx()
+			how := error(context.Canceled)
+			if (int(st.At/time.Millisecond)+st.Inst)%3 == 0 {
+				how = context.DeadlineExceeded
+			}
+			cancel := func() { ac.end(how) }
+			err := rt.el.Start(ac)
 			if err == nil {
 				rt.mu.Lock()
 				rt.startCancel = cancel
